@@ -35,6 +35,22 @@ pub uninterp spec fn fmin(a: f64, b: f64) -> f64;
 pub uninterp spec fn fmax(a: f64, b: f64) -> f64;
 pub assume_specification [f64::min] (a: f64, b: f64) -> (r: f64) ensures r == fmin(a, b);
 pub assume_specification [f64::max] (a: f64, b: f64) -> (r: f64) ensures r == fmax(a, b);
+// float constants (rule R12c): Verus has no model of core::f64 associated consts; each is an
+// uninterpreted spec constant, distinct names so that swapping two of them is visible.
+pub uninterp spec fn spec_f64_max() -> f64;
+pub uninterp spec fn spec_f64_min() -> f64;
+pub uninterp spec fn spec_f64_min_positive() -> f64;
+pub uninterp spec fn spec_f64_nan() -> f64;
+pub uninterp spec fn spec_f64_infinity() -> f64;
+pub uninterp spec fn spec_f64_neg_infinity() -> f64;
+pub uninterp spec fn spec_f64_epsilon() -> f64;
+#[verifier::external_body] pub fn fconst_f64_max() -> (r: f64) ensures r == spec_f64_max() { f64::MAX }
+#[verifier::external_body] pub fn fconst_f64_min() -> (r: f64) ensures r == spec_f64_min() { f64::MIN }
+#[verifier::external_body] pub fn fconst_f64_min_positive() -> (r: f64) ensures r == spec_f64_min_positive() { f64::MIN_POSITIVE }
+#[verifier::external_body] pub fn fconst_f64_nan() -> (r: f64) ensures r == spec_f64_nan() { f64::NAN }
+#[verifier::external_body] pub fn fconst_f64_infinity() -> (r: f64) ensures r == spec_f64_infinity() { f64::INFINITY }
+#[verifier::external_body] pub fn fconst_f64_neg_infinity() -> (r: f64) ensures r == spec_f64_neg_infinity() { f64::NEG_INFINITY }
+#[verifier::external_body] pub fn fconst_f64_epsilon() -> (r: f64) ensures r == spec_f64_epsilon() { f64::EPSILON }
 
 #[derive(Copy, Clone)]
 pub struct Summary {
@@ -576,6 +592,8 @@ fn add_interval_to_summary(overlap: &mut VList, summary: &mut Option<Summary>, i
             
             &&& pieces_ok(out@.1, item_start as int, b, ents2)
             
+            &&& forall|q: int| 0 <= q < out@.1.len() ==> (#[trigger] out@.1[q]).s < out@.1[q].e
+            
             &&& *final(summary) == fold_pieces(*old(summary), out@.1)
             
             &&& sbases(*final(summary)) == cnt(ents2, 0, next_start as int)
@@ -729,6 +747,8 @@ fn add_interval_to_summary(overlap: &mut VList, summary: &mut Option<Summary>, i
                     
                     pieces_ok(ps, item_start as int, lo, ents2),
                     
+                    forall|q: int| 0 <= q < ps.len() ==> (#[trigger] ps[q]).s < ps[q].e,
+                    
                     *summary == fold_pieces(*old(summary), ps),
                     
                     sbases(*summary) == cnt(ents2, 0, lo),
@@ -752,13 +772,12 @@ fn add_interval_to_summary(overlap: &mut VList, summary: &mut Option<Summary>, i
                     (len, val)
                 };
 
-
+                let ghost d_first = d[0];
+                let ghost lo2: int = if l_in[0].end <= next_start { l_in[0].end as int } else { next_start as int };
+                let ghost pc = Piece { s: lo, e: lo2, d: d_first };
                 proof { 
-                    let d_first = d[0];
                     let _ = l_in[0];
                     assert(seg_depth(l_in[0], d[0], ents2));
-                    let lo2: int = if l_in[0].end <= next_start { l_in[0].end as int } else { next_start as int };
-                    let pc = Piece { s: lo, e: lo2, d: d_first };
                     if l_in[0].end <= next_start {
                         lemma_flush_whole(l_in, d, lo, ents2);
                         d = d.subrange(1, d.len() as int);
@@ -766,14 +785,24 @@ fn add_interval_to_summary(overlap: &mut VList, summary: &mut Option<Summary>, i
                         lemma_flush_part(l_in, d, lo, ents2, next_start, removed);
                     }
                     assert(piece_depth(pc, ents2));
-                    lemma_pieces_push(ps, item_start as int, lo, pc, ents2);
                     lemma_cnt_step(ents2, lo, lo2);
                     lemma_cnt_bound(ents2, 0, lo);
-                    assert(ps.push(pc).drop_last() =~= ps);
                     assert(len == (pc.e - pc.s) as u32); 
                     assert(val == piece_val(pc)); 
-                    ps = ps.push(pc);
                     lo = lo2;
+                }
+
+                // A piece that covers no base (a segment split exactly on its boundary, or a
+                // zero-length entry) has no depth to report
+                if len == 0 {
+                    continue;
+                }
+
+
+                proof { 
+                    lemma_pieces_push(ps, item_start as int, pc.s, pc, ents2);
+                    assert(ps.push(pc).drop_last() =~= ps);
+                    ps = ps.push(pc);
                 }
                 match summary {
                     None => {
